@@ -165,6 +165,7 @@ def handleSettings (op : String) (j : Json) : Except String Json := do
             ("gclmulchunker_has_one_guard", Json.bool (guardCount "gclmulchunker" == 1)),
             ("hashing_kind_unchecked", Json.bool (!kindChecked "hashing")),
             ("chunking_kind_unchecked", Json.bool (!kindChecked "chunking"))]),
+          ("d12_fixed_in_source", Json.bool d12FixedInSource),
           ("recognised", Json.bool settingsRecognised)])
   | _ => throw s!"unknown op {op}"
 
